@@ -2,6 +2,7 @@ use crate::Outcome;
 use anyhow::{Result, bail};
 use serde_json::Value;
 
+pub mod c07;
 pub mod ll;
 pub mod llrun;
 pub mod wf;
@@ -12,6 +13,7 @@ pub fn replay_fn(kind: &str) -> Result<fn(&Value) -> Outcome> {
         "c05" => ll::replay_c05,
         "c06" => ll::replay_c06,
         "llrun" => llrun::replay,
+        "c07" => c07::replay,
         _ => bail!("unknown replay kind {kind}"),
     })
 }
